@@ -101,6 +101,7 @@ def mixed_part(ctx, stats):
     occupancy / flatten partitioning and spacetimes (tools/specgen_mixed.py): text of the cascade vs concatenation of the
     stand-alone texts for all of them; execution against the chained oracle outside the C04 defect classes."""
     from props.c04 import flags_of
+    from props.c16 import coord_on_flat
     rng = ctx.rng
     n = 220 if ctx.quick() else 2400
     nexec = 110 if ctx.quick() else 1200
@@ -113,7 +114,7 @@ def mixed_part(ctx, stats):
             jobs.append(specgen.yaml_of(it["decl"], [e], restrict_mapping(it["mapping"], it["per"][j]["out"])))
     res = compilepool.compile_many(jobs)
     ms = {"cascades": n, "compiled": 0, "rejected_consistently": 0, "sections_compared": 0, "kinds": {}, "with_index_math": 0,
-          "index_math_then_reuse_of_its_ranks": 0, "with_spacetime": 0, "partitioned_sections": 0, "executed": 0, "in_c04_defect_class": 0}
+          "index_math_then_reuse_of_its_ranks": 0, "with_spacetime": 0, "partitioned_sections": 0, "executed": 0, "in_c04_defect_class": 0, "in_c01_c16_defect_class": 0}
     bad = 0
     cases = []
     for it, k in zip(items, index):
@@ -150,10 +151,14 @@ def mixed_part(ctx, stats):
         if any(fl.values()):
             ms["in_c04_defect_class"] += 1
             continue
+        spec = runlib.Spec(it["yaml"])
+        if any(specgen.take_selected_lacks_rank(s) for s in spec.structs) or \
+                any(coord_on_flat(spec, st) for st in (it["mapping"].get("spacetime") or {}).values()):
+            ms["in_c01_c16_defect_class"] += 1         # F7 / F6b: reported by C01 / C16
+            continue
         if ms["executed"] >= nexec:
             continue
         ms["executed"] += 1
-        spec = runlib.Spec(it["yaml"])
         ext = specgen_mixed.mixed_extents(rng, it)
         data, scal = runlib.gen_inputs(spec, ext, rng, density=rng.choice([1.0, 0.7]))
         cases.append(execlib.Case(spec, text, ext, data, scal, extra_ints=it["syms"], meta={"mixed": True}))
